@@ -578,6 +578,57 @@ pub fn check_at_buffer_end(c: &AtEnd, obs: &mut Obs) -> CheckResult {
     }
 }
 
+/// Two AIGER documents through one writer object: the second must come out as if written alone.
+#[derive(Serialize, Deserialize, Clone, Debug, PartialEq, Eq, Hash)]
+pub struct Reuse {
+    pub first: Forward,
+    pub second: Forward,
+}
+
+pub fn check_reuse(c: &Reuse, obs: &mut Obs) -> CheckResult {
+    let (Doc::Aiger(a), Doc::Aiger(b)) = (&c.first.doc, &c.second.doc) else { return Ok(()) };
+    let lit = c.first.spec.lit;
+    let writer = c.first.writer.unwrap_or(if a.binary { AigWriter::BinaryOrdered } else { AigWriter::AsciiAig });
+    // the second document in the form the chosen writer takes
+    let (aa, bb) = match writer {
+        AigWriter::AsciiAig => (a.aig.clone(), if b.binary { drivers::ordered_to_plain(&b.aig) } else { b.aig.clone() }),
+        _ => {
+            if !a.binary || !b.binary {
+                return Ok(());
+            }
+            (a.aig.clone(), b.aig.clone())
+        }
+    };
+    // (the second document has to fit the first one's literal type)
+    let max_code = aiger_max_code(lit);
+    if 2 * bb.max_var_index as u128 + 1 > max_code as u128 {
+        return Ok(());
+    }
+    obs.class(format!("writer/{writer:?}"));
+    obs.nontrivial();
+    let r = std::panic::catch_unwind(std::panic::AssertUnwindSafe(|| {
+        (
+            write_aiger_with_crate(&aa, lit, writer),
+            write_aiger_with_crate(&bb, lit, writer),
+            crate::inputs::write_aiger_pair_with_crate(&aa, &bb, lit, writer),
+        )
+    }));
+    let Ok((one, two, both)) = r else { return Ok(()) }; // writer panics are reported by `forward`
+    let mut want = one.clone();
+    want.extend_from_slice(&two);
+    if both != want {
+        let at = both.iter().zip(want.iter()).position(|(x, y)| x != y).unwrap_or(both.len().min(want.len()));
+        fail!(
+            format!("C03:aiger:writer-reuse:{writer:?}"),
+            "a second document written through the same {writer:?} writer differs from the same document written alone, from byte {} of the combined output on (first document {} bytes); second document alone {:?}",
+            at,
+            one.len(),
+            show_bytes(&two)
+        );
+    }
+    Ok(())
+}
+
 pub fn at_end_strategy() -> impl Strategy<Value = AtEnd> {
     (
         prop_oneof![3 => forward_strategy().boxed(), 1 => huge_binary_strategy().boxed()],
@@ -600,6 +651,24 @@ pub fn at_end_strategy() -> impl Strategy<Value = AtEnd> {
 fn run(ctx: &Ctx) {
     let n = ctx.share(ctx.tier.pick(300_000, 12_000_000));
     ctx.run_cases("forward-at-buffer-end", n, at_end_strategy(), check_at_buffer_end);
+    let n = ctx.share(ctx.tier.pick(120_000, 4_000_000));
+    let aiger = || {
+        (proptest::sample::select(vec![ParserId::Aag, ParserId::Aig]), 0u8..5, any::<u8>()).prop_flat_map(|(parser, lit, w)| {
+            let spec = Spec { parser, lit, flag: false };
+            doc_strategy(spec, 8).prop_map(move |doc| {
+                let writer = match &doc {
+                    Doc::Aiger(d) if d.binary => Some(if w % 2 == 0 { AigWriter::BinaryOrdered } else { AigWriter::AsciiOrdered }),
+                    _ => Some(AigWriter::AsciiAig),
+                };
+                Forward { spec, doc, feed: None, writer }
+            })
+        })
+    };
+    let strat = (aiger(), aiger()).prop_map(|(first, mut second)| {
+        second.spec.lit = first.spec.lit;
+        Reuse { first, second }
+    });
+    ctx.run_cases("writer-reuse", n, strat, check_reuse);
     let n = ctx.share(ctx.tier.pick(800_000, 40_000_000));
     ctx.run_cases("forward", n, forward_strategy(), check_forward);
     // BTOR2 constants from candidate strings: whatever the validating constructors accept must
@@ -643,6 +712,10 @@ fn run(ctx: &Ctx) {
 
 fn replay(oracle: &str, v: &Value) -> Option<CheckResult> {
     match oracle {
+        "writer-reuse" => Some(match replay_from_file::<Reuse>(v) {
+            Ok(c) => check_reuse(&c, &mut Obs::default()),
+            Err(e) => Err(Failure::new("C03:decode", e)),
+        }),
         "forward-at-buffer-end" => Some(match replay_from_file::<AtEnd>(v) {
             Ok(c) => check_at_buffer_end(&c, &mut Obs::default()),
             Err(e) => Err(Failure::new("C03:decode", e)),
